@@ -60,12 +60,16 @@ def rate_mode(only, n):
                 print(name, "PATCH FAILED", flush=True)
                 return
             hits = []
+            first_sigs = []
             for k in range(n):
                 seed = 31337 + k * 104729
                 rc, sigs, last = run_check(meta["property"], os.path.join(tmp, "src"), seed)
                 hits.append(rc)
+                if rc == 1 and not first_sigs:
+                    first_sigs = sigs[:3]
             with lock:
-                rates[name] = {"property": meta["property"], "seeds": n, "caught": sum(1 for r in hits if r == 1), "harness_errors": sum(1 for r in hits if r == 2)}
+                rates[name] = {"property": meta["property"], "seeds": n, "caught": sum(1 for r in hits if r == 1), "harness_errors": sum(1 for r in hits if r == 2),
+                               "signatures": first_sigs, "needs": meta.get("needs")}
                 if meta.get("not_expected_to_be_caught"):
                     rates[name]["outside_the_quantifier"] = True
                 print(name, f"{rates[name]['caught']}/{n}", flush=True)
@@ -77,6 +81,30 @@ def rate_mode(only, n):
     names = [nm for nm in sorted(os.listdir(SEEDED)) if os.path.isdir(os.path.join(SEEDED, nm)) and (not only or nm in only)]
     with cf.ThreadPoolExecutor(max_workers=PAR) as ex:
         list(ex.map(one, names))
+    write_index_from_rates(rates)
+
+
+def write_index_from_rates(rates):
+    """seeded/INDEX.md: one row per kept change - target check, what it needs, how many of the seeds caught it."""
+    lines = ["# Seeded changes and the checks that catch them", "",
+             "Each change was produced by an independent sub-agent that saw only the property text and a scratch worktree, confirmed by hand",
+             "(suite green with the change, demonstration fails with it and passes without), and is kept as `patch.diff` + demonstration + `meta.json`.",
+             "The target property's quick check was run against each change under several seeds (`tools/run_seeded.py --rate N --par P`).", "",
+             "| id | property | needs, in order to manifest | caught (seeds) | first signatures |", "|---|---|---|---|---|"]
+    for name, r in sorted(rates.items()):
+        if not os.path.isdir(os.path.join(SEEDED, name)):
+            continue
+        who = f"{r['caught']}/{r['seeds']}"
+        if r.get("outside_the_quantifier"):
+            who += " (not expected: outside the quantifier, see meta.json)"
+        elif r["caught"] == 0:
+            who = "**" + who + " missed**"
+        lines.append(f"| {name} | {r['property']} | {str(r.get('needs'))[:200]} | {who} | {'; '.join(r.get('signatures') or [])[:240]} |")
+    tot = [r for n_, r in rates.items() if os.path.isdir(os.path.join(SEEDED, n_)) and not r.get("outside_the_quantifier")]
+    lines += ["", f"{len(tot)} changes within the quantifiers: {sum(1 for r in tot if r['caught'] == r['seeds'])} caught under every seed, "
+              f"{sum(1 for r in tot if 0 < r['caught'] < r['seeds'])} under some, {sum(1 for r in tot if r['caught'] == 0)} under none."]
+    with open(os.path.join(SEEDED, "INDEX.md"), "w") as f:
+        f.write("\n".join(lines) + "\n")
 
 
 def main(argv):
